@@ -326,8 +326,17 @@ void InterfaceMakerPythonSimple::write_function_instance(ostream &out, Interface
       parameter_list += ", &" + param_name;
       extra_convert += " PyObject *" + param_name + "_uint = PyNumber_Long(" + param_name + ");";
       extra_param_check += "|| (" + param_name + "_uint == nullptr)";
-      pexpr_string = "(unsigned int)PyLong_AsUnsignedLong(" + param_name + "_uint)";
+      // Convert to the parameter's own type: casting to unsigned int would
+      // truncate an unsigned long, and make a call ambiguous between
+      // overloads that take a narrower unsigned type and some other integer.
+      pexpr_string = "(" + type->get_local_name(&parser) + ")PyLong_AsUnsignedLong(" + param_name + "_uint)";
       extra_cleanup += " Py_XDECREF(" + param_name + "_uint);";
+
+    } else if (TypeManager::is_long(type)) {
+      // A long does not fit in the int that the "i" format converts to.
+      out << "long " << param_name;
+      format_specifiers += "l";
+      parameter_list += ", &" + param_name;
 
     } else if (TypeManager::is_integer(type)) {
       out << "int " << param_name;
